@@ -1,0 +1,9 @@
+//go:build !verif
+
+package lungo
+
+// vhook and vhookStream mark the linearization points of the engine and stream
+// protocols. They do nothing unless the package is built with the "verif" tag.
+func vhook(string, *Engine, *Transaction) {}
+
+func vhookStream(string, *Stream) {}
